@@ -63,8 +63,7 @@ func chanRoom(co *ChanObj) bool {
 
 func (e *Engine) chanSend(st *State, ch ChanV, v Value) bool {
 	if ch.Obj == 0 {
-		st.status = Blocked
-		st.note = "send on nil channel"
+		e.block(st, "send on nil channel")
 		return false
 	}
 	co := st.wobj(ch.Obj).V.(*ChanObj)
@@ -73,31 +72,30 @@ func (e *Engine) chanSend(st *State, ch ChanV, v Value) bool {
 		return false
 	}
 	if !chanRoom(co) {
-		st.status = Blocked
-		st.note = "send on full channel"
+		e.block(st, "send on full channel")
 		return false
 	}
 	co.Buf = append(co.Buf, copyVal(v))
+	st.syncVer++
 	return true
 }
 
 func (e *Engine) chanRecv(st *State, ch ChanV, elem types.Type) (Value, bool, bool) {
 	if ch.Obj == 0 {
-		st.status = Blocked
-		st.note = "receive on nil channel"
+		e.block(st, "receive on nil channel")
 		return nil, false, false
 	}
 	co := st.wobj(ch.Obj).V.(*ChanObj)
 	if len(co.Buf) > 0 {
 		v := co.Buf[0]
 		co.Buf = co.Buf[1:]
+		st.syncVer++
 		return v, true, true
 	}
 	if co.Closed {
 		return zero(elem), false, true
 	}
-	st.status = Blocked
-	st.note = "receive on empty channel"
+	e.block(st, "receive on empty channel")
 	return nil, false, false
 }
 
@@ -132,8 +130,7 @@ func (e *Engine) selectInstr(st *State, f *Frame, x *ssa.Select) {
 		}
 	}
 	if chosen < 0 && x.Blocking {
-		st.status = Blocked
-		st.note = "select with no ready case"
+		e.block(st, "select with no ready case")
 		return
 	}
 	tup := TupleV{ConstI(int64(chosen), 64), ConstBool(recvOK)}
@@ -151,7 +148,6 @@ func (e *Engine) selectInstr(st *State, f *Frame, x *ssa.Select) {
 }
 
 func (e *Engine) goInstr(st *State, f *Frame, x *ssa.Go) {
-	// cooperative model (spike): run the goroutine body to completion right away.
 	fv, args, ok := e.evalCallee(st, f, x.Common())
 	if !ok {
 		return
@@ -161,7 +157,7 @@ func (e *Engine) goInstr(st *State, f *Frame, x *ssa.Go) {
 		e.unsupported_(st, "go on non-function")
 		return
 	}
-	e.callClosure(st, fn, args, func(st *State, res Value) {}, nil)
+	e.spawn(st, fn, args)
 }
 
 var _ = fmt.Sprint
